@@ -8,6 +8,7 @@ import (
 	"errors"
 	"os"
 
+	"github.com/gagliardetto/solana-go"
 	"github.com/ipfs/go-cid"
 	"github.com/libp2p/go-libp2p/core/peer"
 	"github.com/rpcpool/yellowstone-faithful/blocktimeindex"
@@ -16,6 +17,7 @@ import (
 	"github.com/rpcpool/yellowstone-faithful/gsfa"
 	"github.com/rpcpool/yellowstone-faithful/indexes"
 	"github.com/rpcpool/yellowstone-faithful/indexmeta"
+	"github.com/rpcpool/yellowstone-faithful/radiance/genesis"
 	"github.com/urfave/cli/v2"
 
 	carv2 "github.com/ipld/go-car/v2"
@@ -47,15 +49,17 @@ const (
 )
 
 const (
-	c10FmtCompact   = iota // compactindexsized file
-	c10FmtBucket           // bucketteer (sig-exists) file
-	c10FmtBlocktime        // blocktime index file
-	c10FmtManifest         // gsfa manifest
+	c10FmtCompact    = iota // compactindexsized file
+	c10FmtBucket            // bucketteer (sig-exists) file
+	c10FmtBlocktime         // blocktime index file
+	c10FmtManifest          // gsfa manifest
+	c10FmtOldCompact        // deprecated compactindex / compactindex36 file (32-byte header, no metadata at all)
+	c10FmtOldBucket         // deprecated bucketteer file (version 1, string metadata, no identity recorded)
 )
 
 type c10File struct {
 	opened   bool
-	missing  int    // 0: all identity fields present; 1: no epoch entry; 2: no root CID entry; 3 (hash index only): no kind entry
+	missing  int    // 0: all identity fields present; 1: no epoch entry; 2: no root CID entry; 3: epoch value of 7 bytes; 4 (hash index only): no kind entry
 	version  uint64 // gsfa manifest: format version
 	format   int
 	kind     int    // compactindexsized: index into c10Kinds
@@ -89,6 +93,9 @@ func c10Meta(f *c10File, kind []byte, epochBytes []byte, nMissing int) indexmeta
 		f.missing = verifChoice("missing", nMissing)
 	}
 	var m indexmeta.Meta
+	if f.missing == 3 {
+		epochBytes = epochBytes[:7] // not what AddUint64 / Uint64tob write
+	}
 	if f.missing != 1 {
 		verifAssert(m.Add(indexmeta.MetadataKey_Epoch, epochBytes) == nil, "C10.load: harness meta epoch")
 	}
@@ -96,7 +103,7 @@ func c10Meta(f *c10File, kind []byte, epochBytes []byte, nMissing int) indexmeta
 		verifAssert(m.AddCid(indexmeta.MetadataKey_RootCid, c10Roots[f.root]) == nil, "C10.load: harness meta root")
 	}
 	verifAssert(m.AddString(indexmeta.MetadataKey_Network, string(indexes.NetworkMainnet)) == nil, "C10.load: harness meta network")
-	if kind != nil && f.missing != 3 {
+	if kind != nil && f.missing != 4 {
 		verifAssert(m.Add(indexmeta.MetadataKey_Kind, kind) == nil, "C10.load: harness meta kind")
 	}
 	return m
@@ -110,14 +117,15 @@ func c10LE64(v uint64) []byte {
 
 // image of a compactindexsized file: the header exactly as Builder.Seal writes it (Header.Bytes);
 // Open never reads past the header.
-func c10CompactImage(f *c10File, nKinds int) []byte {
+// The kind is that of the role itself (choice 0) or of the next 1..nKinds-1 roles (a file built for another role).
+func c10CompactImage(f *c10File, role, nKinds int) []byte {
 	f.format = c10FmtCompact
-	f.kind = verifChoice("kind", nKinds)
+	f.kind = (c10RightKind[role] + verifChoice("kind", nKinds)) % len(c10Kinds)
 	f.root = verifChoice("root", len(c10Roots))
 	f.epoch = verifU64("fileEpoch")
 	f.hasEpoch = true
-	m := c10Meta(f, c10Kinds[f.kind], indexes.Uint64tob(f.epoch), 4)
-	h := compactindexsized.Header{ValueSize: 9, NumBuckets: 1, Metadata: &m}
+	m := c10Meta(f, c10Kinds[f.kind], indexes.Uint64tob(f.epoch), 5)
+	h := compactindexsized.Header{ValueSize: c10ValueSize[f.kind], NumBuckets: 1, Metadata: &m}
 	return h.Bytes()
 }
 
@@ -127,7 +135,7 @@ func c10BucketImage(f *c10File) []byte {
 	f.root = verifChoice("root", len(c10Roots))
 	f.epoch = verifU64("fileEpoch")
 	f.hasEpoch = true
-	m := c10Meta(f, nil, c10LE64(f.epoch), 3)
+	m := c10Meta(f, nil, c10LE64(f.epoch), 4)
 	magic := bucketteer.Magic()
 	body := append([]byte{}, magic[:]...)
 	body = append(body, c10LE64(bucketteer.Version)...)
@@ -161,11 +169,38 @@ func c10ManifestImage(f *c10File) []byte {
 	f.root = verifChoice("root", len(c10Roots))
 	f.epoch = verifU64("fileEpoch")
 	f.hasEpoch = true
-	m := c10Meta(f, nil, c10LE64(f.epoch), 3)
+	m := c10Meta(f, nil, c10LE64(f.epoch), 4)
 	f.version = verifU64("manifestVersion") // the current writer's version is 5
 	out := []byte{'g', 's', 'f', 'a', 'm', 'n', 'f', 's'}
 	out = append(out, c10LE64(f.version)...)
 	return append(out, m.Bytes()...)
+}
+
+// image of a deprecated compactindex / compactindex36 file: the 32-byte header (magic, file size,
+// bucket count, version); these formats have no metadata, hence no identity.
+func c10OldCompactImage(f *c10File) []byte {
+	f.format = c10FmtOldCompact
+	f.root = -1
+	out := make([]byte, 32)
+	copy(out, []byte{'r', 'd', 'c', 'e', 'c', 'i', 'd', 'x'})
+	binary.LittleEndian.PutUint64(out[8:], 32)
+	binary.LittleEndian.PutUint32(out[16:], 1)
+	out[20] = 1
+	return out
+}
+
+// image of a deprecated bucketteer file: size ‖ magic ‖ version 1 ‖ numMeta=0 ‖ numPrefixes=0
+func c10OldBucketImage(f *c10File) []byte {
+	f.format = c10FmtOldBucket
+	f.root = -1
+	magic := bucketteer.Magic()
+	body := append([]byte{}, magic[:]...)
+	body = append(body, c10LE64(1)...)
+	body = append(body, c10LE64(0)...)
+	body = append(body, c10LE64(0)...)
+	out := make([]byte, 4)
+	binary.LittleEndian.PutUint32(out, uint32(len(body)))
+	return append(out, body...)
 }
 
 // c10Materialise writes the file of a role the first time the loader touches it.
@@ -177,23 +212,34 @@ func c10Materialise(role int) {
 	f.opened = true
 	var img []byte
 	foreign := verifParam("foreign", 0) == 1
+	legacy := verifParam("legacy", 0) == 1
 	switch role {
 	case c10RoleCidToOff, c10RoleSlotToCid, c10RoleSigToCid, c10RoleGsfaOffsets:
 		nk := verifParam("kinds", len(c10Kinds))
-		if foreign && verifChoice("foreign", 2) == 1 {
+		switch {
+		case role == c10RoleCidToOff && c10DeprecatedCfg:
+			img = c10OldCompactImage(f) // the deprecated cid-to-offset index of a deprecated configuration
+		case legacy && (role == c10RoleSlotToCid || role == c10RoleSigToCid) && verifChoice("oldFormat", 2) == 1:
+			img = c10OldCompactImage(f) // a file in the old (compactindex36) format
+		case foreign && verifChoice("foreign", 2) == 1:
 			img = c10BucketImage(f) // a sig-exists file configured in a hash-index role
-		} else {
-			img = c10CompactImage(f, nk)
+		default:
+			img = c10CompactImage(f, role, nk)
 		}
 	case c10RoleGsfaManifest:
 		img = c10ManifestImage(f)
 	case c10RoleSigExists:
-		// (no foreign-format file here: bucketteer.readHeader allocates whatever the first four bytes
-		// say, 1.6 GB for any other format's magic -- robustness of that reader is C12's subject)
-		img = c10BucketImage(f)
+		switch {
+		case c10DeprecatedCfg && verifChoice("oldSigExists", 2) == 1:
+			img = c10OldBucketImage(f)
+		case foreign && verifChoice("foreign", 2) == 1:
+			img = c10CompactImage(f, c10RoleSigToCid, 1) // a hash index configured as sig-exists
+		default:
+			img = c10BucketImage(f)
+		}
 	case c10RoleBlocktime:
 		if foreign && verifChoice("foreign", 2) == 1 {
-			img = c10CompactImage(f, 1)
+			img = c10CompactImage(f, c10RoleSlotToCid, 1)
 			img = append(img, make([]byte, blocktimeindex.DefaultIndexByteSize)...)
 		} else {
 			img = c10BlocktimeImage(f)
@@ -262,16 +308,67 @@ func c10Setup() {
 var c10RightKind = [c10NumRoles]int{0, 1, 2, 3, -1, -1, -1}
 var c10RightFormat = [c10NumRoles]int{c10FmtCompact, c10FmtCompact, c10FmtCompact, c10FmtCompact, c10FmtManifest, c10FmtBucket, c10FmtBlocktime}
 
+// value sizes the four writers create their files with (offset+size, CID, CID, offset+size)
+var c10ValueSize = []uint64{9, 36, 36, 9}
+
+// c10DeprecatedCfg: the configuration names a deprecated cid-to-offset index instead of a
+// cid-to-offset-and-size index; the loader then opens the cid index and the sig-exists index
+// with the deprecated readers, whose formats record no identity.
+var c10DeprecatedCfg bool
+
+// c10FormatOK: is a file of format fmt what the loader's reader for that role reads?
+func c10FormatOK(role, format int) bool {
+	switch role {
+	case c10RoleCidToOff:
+		if c10DeprecatedCfg {
+			return format == c10FmtOldCompact
+		}
+		return format == c10FmtCompact
+	case c10RoleSlotToCid, c10RoleSigToCid:
+		return format == c10FmtCompact || format == c10FmtOldCompact // old-format files are still read (no identity)
+	case c10RoleSigExists:
+		if c10DeprecatedCfg {
+			// version 1 and version 2 files differ in the version field only as far as the magic check goes
+			return format == c10FmtOldBucket
+		}
+		return format == c10FmtBucket
+	}
+	return format == c10RightFormat[role]
+}
+
+// models (engine redirect, ext_C10.go) of the genesis archive reader and the hash constructor
+// used by the epoch-0 branch of the loader.
+func c10Model_ReadGenesisFromFile(fpath string) (*genesis.Genesis, *[32]byte, error) {
+	var h [32]byte
+	h[0] = 0x45
+	return &genesis.Genesis{}, &h, nil
+}
+
+func c10Model_HashFromBytes(in []byte) (out solana.Hash) {
+	copy(out[:], in)
+	return
+}
+
+// c10New allocates the (anonymous) struct a config pointer field points to.
+func c10New[T any](p **T) *T {
+	*p = new(T)
+	return *p
+}
+
 func VerifC10Load() {
 	c10Setup()
 	c10E = verifU64("configEpoch")
-	verifAssume(c10E != 0) // epoch 0 additionally loads the genesis file first (not modelled)
+	if verifParam("epoch0", 0) == 0 {
+		verifAssume(c10E != 0) // epoch 0 (which loads the genesis file first) is the subject of the epoch0 variant
+	}
 	filecoin := verifChoice("filecoinMode", 2) == 1
 	withGsfa := verifChoice("withGsfa", 2) == 1
+	c10DeprecatedCfg = verifParam("legacy", 0) == 1 && verifChoice("deprecatedConfig", 2) == 1
 
 	cfg := &Config{}
 	e := c10E
 	cfg.Epoch = &e
+	cfg.Genesis.URI = URI(verifTempPath("genesis.tar.bz2"))
 	cfg.Indexes.SlotToCid.URI = URI(c10Paths[c10RoleSlotToCid])
 	cfg.Indexes.SigToCid.URI = URI(c10Paths[c10RoleSigToCid])
 	cfg.Indexes.SigExists.URI = URI(c10Paths[c10RoleSigExists])
@@ -279,45 +376,42 @@ func VerifC10Load() {
 	if withGsfa {
 		cfg.Indexes.Gsfa.URI = URI(verifTempPath("gsfa"))
 	}
+	if c10DeprecatedCfg {
+		cfg.Indexes.CidToOffset.URI = URI(c10Paths[c10RoleCidToOff])
+	} else if !filecoin {
+		cfg.Indexes.CidToOffsetAndSize.URI = URI(c10Paths[c10RoleCidToOff])
+	}
 	cfgRoot := -1
 	if filecoin {
 		cfgRoot = verifChoice("configRoot", len(c10Roots))
-		cfg.Data.Filecoin = &struct {
-			Enable    bool     `json:"enable" yaml:"enable"`
-			RootCID   cid.Cid  `json:"root_cid" yaml:"root_cid"`
-			Providers []string `json:"providers" yaml:"providers"`
-		}{Enable: true, RootCID: c10Roots[cfgRoot]}
+		fc := c10New(&cfg.Data.Filecoin)
+		fc.Enable = true
+		fc.RootCID = c10Roots[cfgRoot]
 	} else {
-		cfg.Indexes.CidToOffsetAndSize.URI = URI(c10Paths[c10RoleCidToOff])
 		carPath := verifTempPath("epoch.car")
 		verifMemFile(carPath, append([]byte{0x3a}, make([]byte, 0x3a+20)...))
-		cfg.Data.Car = &struct {
-			URI        URI `json:"uri" yaml:"uri"`
-			FromPieces *struct {
-				Metadata struct {
-					URI URI `json:"uri" yaml:"uri"`
-				} `json:"metadata" yaml:"metadata"`
-				Deals struct {
-					URI URI `json:"uri" yaml:"uri"`
-				} `json:"deals" yaml:"deals"`
-				PieceToURI map[cid.Cid]PieceURLInfo `json:"piece_to_uri" yaml:"piece_to_uri"`
-			} `json:"from_pieces" yaml:"from_pieces"`
-		}{URI: URI(carPath)}
+		c10New(&cfg.Data.Car).URI = URI(carPath)
 	}
+	verifAssert(cfg.IsFilecoinMode() == filecoin && cfg.IsDeprecatedIndexes() == c10DeprecatedCfg, "C10.load: harness config")
 
 	ep, err := NewEpochFromConfig(cfg, &cli.Context{Context: context.Background()}, nil, nil)
 
 	// ---- oracle (branch-free over the symbolic epochs) ----
 	var symMismatch uint64 // number of opened files that record another epoch than configured (or are not self-consistent)
 	concreteMismatch := false
+	legacyInvolved := c10DeprecatedCfg // a file without identity takes part: only the safety direction is claimed
 	root := cfgRoot
 	for role := 0; role < c10NumRoles; role++ {
 		f := &c10Files[role]
 		if !f.opened {
 			continue
 		}
-		if f.format != c10RightFormat[role] {
+		if !c10FormatOK(role, f.format) {
 			concreteMismatch = true
+			continue
+		}
+		if f.format == c10FmtOldCompact || f.format == c10FmtOldBucket {
+			legacyInvolved = true // nothing recorded, nothing to compare
 			continue
 		}
 		if f.format == c10FmtCompact && f.kind != c10RightKind[role] {
@@ -357,25 +451,27 @@ func VerifC10Load() {
 		for _, r := range need {
 			verifAssert(c10Files[r].opened, "C10.load: epoch returned without opening one of its index files")
 		}
-		// the gsfa offsets index (inside the gsfa directory) carries its own epoch / root CID
-		if withGsfa {
-			g := &c10Files[c10RoleGsfaOffsets]
-			m := &c10Files[c10RoleGsfaManifest]
-			verifKnownFinding("C10-S19-gsfa-offsets-identity-unchecked",
-				g.format == c10FmtCompact && g.kind == 3 && (g.epoch != c10E || g.root != m.root))
-		}
 		verifAssert(!concreteMismatch, "C10.load: epoch served from an index of the wrong kind/format or with a different root CID")
 		verifAssert(symMismatch == 0, "C10.load: epoch served from an index file recording another epoch")
 		verifAssert(ep.Epoch() == c10E, "C10.load: Epoch.epoch differs from the configured epoch")
-		verifAssert(root >= 0 && ep.rootCid.Equals(c10Roots[root]), "C10.load: Epoch.rootCid is not the common root CID")
+		if root >= 0 {
+			verifAssert(ep.rootCid.Equals(c10Roots[root]), "C10.load: Epoch.rootCid is not the common root CID")
+		} else {
+			verifAssert(legacyInvolved && !ep.rootCid.Defined(), "C10.load: Epoch.rootCid set although no file records a root CID")
+		}
 		verifAssert(ep.IsFilecoinMode() == filecoin, "C10.load: mode")
-		if !filecoin {
-			verifAssert(ep.carHeaderSize == 1+0x3a, "C10.load: CAR header size")
+		if verifParam("epoch0", 0) == 1 {
+			isZero := verifIteU64(c10E == 0, 1, 0)
+			hasGenesis := uint64(0)
+			if ep.GetGenesis() != nil {
+				hasGenesis = 1
+			}
+			verifAssert(isZero == hasGenesis, "C10.load: genesis loaded iff the configured epoch is 0")
 		}
 		verifReach("loaded")
 	} else {
 		verifAssert(ep == nil, "C10.load: epoch returned together with an error")
-		if !concreteMismatch {
+		if !concreteMismatch && !legacyInvolved {
 			verifAssert(symMismatch != 0, "C10.load: a configuration whose files all match is rejected")
 		}
 		verifReach("rejected")
